@@ -243,6 +243,16 @@ class Aspire:
         if defaults:
             # The flow changed: a copy saved earlier is out of date
             defaults["saved_flow"] = False
+        # ... and so is a checkpoint this instance was primed to resume from
+        # (resume_from_file): its particles were weighted under the old flow
+        for attr in (
+            "_resume_from_default",
+            "_resume_sampler_type",
+            "_resume_n_samples",
+            "_resume_overrides",
+        ):
+            if hasattr(self, attr):
+                delattr(self, attr)
         if checkpoint_path is None and defaults:
             checkpoint_path = defaults["path"]
             checkpoint_save_config = defaults["save_config"]
